@@ -32,12 +32,27 @@ func c15BandBase(ifc *absint.Iface) *absint.Struct {
 	if !ok {
 		return nil
 	}
-	if c := outer.F["band"]; c != nil {
-		if b, ok := c.V.(*absint.Struct); ok {
-			return b
+	// embedded directly or through intermediate embedded structs
+	var find func(st *absint.Struct, depth int) *absint.Struct
+	find = func(st *absint.Struct, depth int) *absint.Struct {
+		if c := st.F["band"]; c != nil {
+			if b, ok := c.V.(*absint.Struct); ok {
+				return b
+			}
 		}
+		if depth > 2 {
+			return nil
+		}
+		for _, name := range st.Order {
+			if inner, ok := st.F[name].V.(*absint.Struct); ok {
+				if b := find(inner, depth+1); b != nil {
+					return b
+				}
+			}
+		}
+		return nil
 	}
-	return nil
+	return find(outer, 0)
 }
 
 func c15Chans(base *absint.Struct, field string) []*absint.Struct {
